@@ -195,6 +195,15 @@ def rule_r2(rep, program: Program):
                 if isinstance(n, ast.Assign) and any(norm(t) == "self.log_val" for t in n.targets):
                     found = n.value
         r.inst({"dunder": name, "log-space expr": norm(found), "guard": norm(guard) if guard is not None else None})
+        # the log-space result must leave the method as a LogRepFloat (or be stored in self.log_val): a return that
+        # reads a linear attribute of the freshly built object (`.val`) or wraps it (float(...)) goes back to linear space
+        if found is not None and name != "__iadd__":
+            for s_ in lbody:
+                for rt in [n for n in ast.walk(s_) if isinstance(n, ast.Return) and n.value is not None]:
+                    v = rt.value
+                    builds = any(isinstance(n, ast.keyword) and n.arg == "log_val" for n in ast.walk(v))
+                    if builds and not (isinstance(v, ast.Call) and norm(v.func) in ("LogRepFloat", "type(self)", "self.__class__")):
+                        r.violate(PROP, f"LogRepFloat.{name}:log-result-linearised:{norm(v)[:40]}", f"{name} computes its result in log space but returns `{norm(v)[:60]}`: the value leaves as a plain float, so a result outside the double range becomes inf / 0 (and follow-on arithmetic NaN) although its logarithm is finite", node=rt, file=f.file)
         if found is None:
             r.violate(PROP, f"LogRepFloat.{name}:no-log-space-result", "the LogRepFloat branch does not produce a log-space result (goes through the linear value: overflow / underflow for large magnitudes)", node=ifnode, file=f.file)
             continue
